@@ -396,9 +396,39 @@ u_history(uint64_t idx, void *arg)
         static struct model m;
         memset(&m, 0, sizeof m);
         m.size = size;
+        for (size_t j = 0; j < size; j++)
+            mem[j] = (unsigned char)(j * 13u + 7u);
         memcpy(m.img, mem, size);
-        if (byte_buffer_space(&b, mem, size) != 0)
-            vh_fail("space", "op=space", "refused size=%zu", size);
+        /* the starting state comes from the set-up function or from one of the header's initialiser macros:
+         * empty, full, or any legal (used, offset) pair */
+        switch ((unsigned)vh_below(&r, 4)) {
+        case 0:
+            if (byte_buffer_space(&b, mem, size) != 0)
+                vh_fail("space", "op=space", "refused size=%zu", size);
+            break;
+        case 1: {
+            const ByteBuffer t = BYTE_BUFFER_EMPTY(mem, size);
+            b = t;
+            VH_COUNT("history starting from BYTE_BUFFER_EMPTY");
+            break;
+        }
+        case 2: {
+            const ByteBuffer t = BYTE_BUFFER(mem, size);
+            b = t;
+            m.used = size;
+            VH_COUNT("history starting from BYTE_BUFFER (full)");
+            break;
+        }
+        default: {
+            size_t u = (size_t)vh_below(&r, size + 1), o = (size_t)vh_below(&r, u + 1);
+            const ByteBuffer t = BYTE_BUFFER_INIT(mem, size, u, o);
+            b = t;
+            m.used = u;
+            m.offset = o;
+            VH_COUNT("history starting from BYTE_BUFFER_INIT");
+            break;
+        }
+        }
         unsigned next = 1;
         size_t nops = large ? 120 : vh_tier ? 1500 : 400;
         char hist[160];
